@@ -233,10 +233,22 @@ def e3(repo):
 
     # --- read_symbol
     body = extract.fn_body(src, "read_symbol")
+    # equivalent spellings are normalised first: `let (pos, c) = buf.next().unwrap();` binds what `next.0` / `next.1` name,
+    # and `'a' | 'b' => e` stands for two arms with the same body
+    alias = re.search(r"let\s*\(\s*pos\s*,\s*(\w+)\s*\)\s*=\s*buf\s*\.\s*next\s*\(\s*\)\s*\.\s*unwrap\s*\(\s*\)\s*;", body)
+    if alias:
+        body = re.sub(r"\b%s\b" % re.escape(alias.group(1)), "next.1", body[:alias.start()] + body[alias.end():])
     arms_txt, _, _ = inner_match(body, r"next\s*\.\s*1")
     dispatch = []
     saw_default = False
+    expanded = []
     for pat, expr in match_arms(arms_txt):
+        parts = [x.strip() for x in pat.split("|")]
+        if len(parts) > 1 and all(re.fullmatch(RUST_CHAR, x) for x in parts):
+            expanded += [(x, expr) for x in parts]
+        else:
+            expanded.append((pat, expr))
+    for pat, expr in expanded:
         if saw_default:
             raise ValueError("arm after the default arm of read_symbol")
         if pat == "_":
